@@ -126,6 +126,53 @@ Example ex_reject_default_while_ready :
   trace_ok [1] log = false /\ spec_log [1] log = false.
 Proof. vm_compute. auto. Qed.
 
+(* limit_failure_consumes_nothing: a state with a value in the buffer and a pending receive; the
+   receive fails for lack of room (ALimit), the channel is as before, and the retry takes the value *)
+Definition ex_lim_ls : list label :=
+  [LInv 1 (OSend 0%nat (VNum 7)); LLin (ASend 1 0%nat (VNum 7)) 0 0; LRes 1 (OSend 0%nat (VNum 7)) RSendOk;
+   LInv 2 (ORecv 0%nat)].
+Example ex_limit_failure :
+  exists s s' s2 s3,
+    run (init [1]) ex_lim_ls = Some s /\ exec s (LLin (ALimit 2) 0 0) = Some s' /\
+    chs s' = chs s /\ find_t 2 (fin s') = Some (ORecv 0%nat, RErrLimit) /\
+    run s' [LRes 2 (ORecv 0%nat) RErrLimit; LInv 2 (ORecv 0%nat)] = Some s2 /\
+    exec s2 (LLin (ARecv 2 0%nat (VNum 7)) 0 0) = Some s3 /\
+    find_t 2 (fin s3) = Some (ORecv 0%nat, RRecv true (VNum 7)).
+Proof. vm_compute. do 4 eexists. repeat split; reflexivity. Qed.
+
+(* the log checker accepts a failed receive / select that left the value where it was ... *)
+Example ex_accept_limit_failure :
+  let log := [EInv 1 (OSend 0%nat (VNum 1)); ERes 1 (OSend 0%nat (VNum 1)) RSendOk;
+              EInv 1 (ORecv 0%nat); ERes 1 (ORecv 0%nat) RErrLimit;
+              EInv 1 (OSelect [SRecv 0%nat]); ERes 1 (OSelect [SRecv 0%nat]) RErrLimit;
+              EInv 1 (OSelect [SRecv 0%nat; SDefault]); ERes 1 (OSelect [SRecv 0%nat; SDefault]) (RSel 0 (VNum 1) true);
+              EInv 1 (OClose 0%nat); ERes 1 (OClose 0%nat) RCloseOk;
+              EInv 1 (ORecv 0%nat); ERes 1 (ORecv 0%nat) (RRecv false VNil)] in
+  trace_ok [1] log = true /\ spec_log [1] log = true.
+Proof. vm_compute. auto. Qed.
+
+(* ... and rejects one after which the value is gone (default although the value was sent and
+   never received; closure reported with the value undelivered) *)
+Example ex_reject_limit_failure_that_consumed :
+  let log := [EInv 1 (OSend 0%nat (VNum 1)); ERes 1 (OSend 0%nat (VNum 1)) RSendOk;
+              EInv 1 (ORecv 0%nat); ERes 1 (ORecv 0%nat) RErrLimit;
+              EInv 1 (OSelect [SRecv 0%nat; SDefault]); ERes 1 (OSelect [SRecv 0%nat; SDefault]) (RSel 1 VNil false)] in
+  let log2 := [EInv 1 (OSend 0%nat (VNum 1)); ERes 1 (OSend 0%nat (VNum 1)) RSendOk;
+              EInv 1 (ORecv 0%nat); ERes 1 (ORecv 0%nat) RErrLimit;
+              EInv 1 (OClose 0%nat); ERes 1 (OClose 0%nat) RCloseOk;
+              EInv 1 (ORecv 0%nat); ERes 1 (ORecv 0%nat) (RRecv false VNil)] in
+  trace_ok [1] log = false /\ spec_log [1] log = false /\ trace_ok [1] log2 = false /\ spec_log [1] log2 = false.
+Proof. vm_compute. auto. Qed.
+
+(* ... and a failed select send case that nevertheless sent (the value arrives although, by the
+   log, nobody sent it), and a failed send or close (they store nothing: never RErrLimit) *)
+Example ex_reject_limit_failure_that_sent :
+  let log := [EInv 1 (OSelect [SSend 0%nat (VNum 1)]); ERes 1 (OSelect [SSend 0%nat (VNum 1)]) RErrLimit;
+              EInv 1 (OSelect [SRecv 0%nat; SDefault]); ERes 1 (OSelect [SRecv 0%nat; SDefault]) (RSel 0 (VNum 1) true)] in
+  let log2 := [EInv 1 (OSend 0%nat (VNum 1)); ERes 1 (OSend 0%nat (VNum 1)) RErrLimit] in
+  trace_ok [1] log = false /\ spec_log [1] log = false /\ trace_ok [1] log2 = false /\ spec_log [1] log2 = false.
+Proof. vm_compute. auto. Qed.
+
 (* isolation: a concrete step function (a counter that emits its value; the prototype is the increment) *)
 Definition ex_step (p : Z) (st : Z) : Z * list Z := (st + p, [st]).
 Example ex_iso :
